@@ -57,7 +57,7 @@ def make_data(rng, n, ncols, frame, classes=(0.0, 1.0, 2.0)):
             df = pd.DataFrame(a, columns=names)
             df[names[0]] = df[names[0]].astype("int64")
             df[NOTE] = ["r%d" % i for i in range(n)]
-            return df, names
+            return _row_labels(rng, df), names
         if style == "range0":
             df = pd.DataFrame(a)
         elif style == "range1":
@@ -70,8 +70,26 @@ def make_data(rng, n, ncols, frame, classes=(0.0, 1.0, 2.0)):
             df = pd.DataFrame(a, columns=[10 * v + 7 for v in lab])
         else:
             df = pd.DataFrame(a, columns=names)
-        return df, list(df.columns)
+        return _row_labels(rng, df), list(df.columns)
     return a, names
+
+
+def _row_labels(rng, df):
+    """how the ROWS of a DataFrame may be labelled: pandas' default 0..n-1, a slice of a larger frame (labels start elsewhere), a shuffled frame, text
+    labels, labels that repeat.  Rows are positions (the window arguments are positions); nothing about an injection depends on their labels"""
+    n = len(df)
+    style = rng.choice(["default", "default", "offset", "shuffled", "text", "repeated"])
+    if style == "offset":
+        df.index = range(100, 100 + n)
+    elif style == "shuffled":
+        lab = list(range(n))
+        rng.shuffle(lab)
+        df.index = lab
+    elif style == "text":
+        df.index = ["row%d" % (3 * i) for i in range(n)]
+    elif style == "repeated":
+        df.index = [i % 3 for i in range(n)]
+    return df
 
 
 def colarg(frame, names, pos):
